@@ -74,6 +74,45 @@ pub(crate) fn virtual_tsc_read(is_end: bool) -> Option<u64> {
 }
 
 // ---------------------------------------------------------------------------
+// Virtual OS clock
+// ---------------------------------------------------------------------------
+
+static VOS_READ: AtomicPtr<()> = AtomicPtr::new(std::ptr::null_mut());
+static VOS_BASE: std::sync::OnceLock<std::time::Instant> =
+    std::sync::OnceLock::new();
+
+/// Installs a virtual source for the OS timer: `read(false)` / `read(true)`
+/// replace `Instant::now()` at the start / end of a timed section and return
+/// nanoseconds since an arbitrary fixed instant.
+pub fn install_virtual_os(read: fn(bool) -> u64) {
+    VOS_BASE.get_or_init(std::time::Instant::now);
+    VOS_READ.store(read as *mut (), Ordering::SeqCst);
+}
+
+/// Removes the virtual OS clock source.
+pub fn remove_virtual_os() {
+    VOS_READ.store(std::ptr::null_mut(), Ordering::SeqCst);
+}
+
+#[inline]
+pub(crate) fn virtual_os_now(is_end: bool) -> Option<std::time::Instant> {
+    let read = VOS_READ.load(Ordering::Relaxed);
+    if read.is_null() {
+        return None;
+    }
+    // SAFETY: Only ever stored from a `fn(bool) -> u64`.
+    let read: fn(bool) -> u64 =
+        unsafe { std::mem::transmute::<*mut (), fn(bool) -> u64>(read) };
+    Some(*VOS_BASE.get()? + Duration::from_nanos(read(is_end)))
+}
+
+/// Whether any virtual clock (timestamp counter or OS) is installed.
+#[inline]
+pub(crate) fn virtual_clock_installed() -> bool {
+    virtual_tsc_installed() || !VOS_READ.load(Ordering::Relaxed).is_null()
+}
+
+// ---------------------------------------------------------------------------
 // Failpoints
 // ---------------------------------------------------------------------------
 
